@@ -16,7 +16,8 @@ def plan(ctx):
             dict(gen="g4", count=40 * k, modes=["plain", "spacetime"], nexec=0),
             dict(gen="g4b", count=40 * k, modes=["plain"], nexec=0),
             dict(gen="g5", count=20 * k, modes=["plain"], nexec=0),
-            dict(gen="g7", count=40 * k, modes=["metrics"], nexec=0)]
+            dict(gen="g7", count=40 * k, modes=["metrics"], nexec=0),
+            dict(gen="g7occ", count=30 * k, modes=["metrics"], nexec=0)]
 
 
 def nontrivial(rec):
@@ -74,12 +75,26 @@ def check_records(ctx, recs):
             if r["mode"] == "metrics" and "_pos" in a["why"]:
                 case["predicates"].add("metrics_mode_interval_position")
                 case["signature"] = "unbound-position-variable"
+            if r["mode"] == "metrics" and unb.startswith("eager_") and eager_evict_on_own_rank(r["yaml"], unb):
+                case["predicates"].add("eager_evict_on_own_rank")
+                case["signature"] = "unbound-eager-set"
             f = ctx.match_finding(case)
             if f:
                 ctx.known(f, f["what"]); continue
             ctx.violation(dict(kind="unbound-name", yaml=r["yaml"], yaml_text=specs.dump_yaml(r["yaml"]), mode=r["mode"], hashseed=r["hashseed"],
                                text=r["text"], user_names=r["user"], reason=a["why"],
                                obligation="DA (userNames spec) tree = some _  (Props/C06.DA_sound)"), True)
+
+
+def eager_evict_on_own_rank(d, unb):
+    """an eager buffet binding of (tensor, rank) whose evict-on rank is that same rank, and `unb` is that binding's eager set"""
+    for ein, comps in (d.get("bindings") or {}).items():
+        for comp in comps:
+            for b in comp.get("bindings", []) if isinstance(comp, dict) else []:
+                if b.get("style") == "eager" and b.get("evict-on") == b.get("rank") and "tensor" in b:
+                    if unb.startswith("eager_%s_%s_" % (b["tensor"].lower(), b["rank"].lower())):
+                        return True
+    return False
 
 
 def flattened_stamp_vars(d):
